@@ -2,8 +2,7 @@
 
    Definitions only.  The model abstracts the CONTENT of the caches by the version of the problem data
    it was computed from; which primitive actions the real methods perform, in which order, is modelled
-   literally (see `qtrace`), including the places where the real code reads a cache without looking at
-   its flag.
+   literally (see `qtrace`).
 
    Real object                                   model
    -----------                                   -----
@@ -286,7 +285,52 @@ Section Contents.
 
   Definition spec_of (st : state) (i : cid) : C :=
     F i (dat (version st)) (dat (version st)).
+
+  (* for every Read of a trace: the content the cached object hands out, the cache-free answer *)
+  Fixpoint read_contents (tr : list action) (st : state) : list (option C * C) :=
+    match tr with
+    | [] => []
+    | a :: tr' =>
+        match a with
+        | Read i => [(content_of st i, spec_of st i)]
+        | _ => []
+        end ++ read_contents tr' (step st a)
+    end.
 End Contents.
+
+(* ---------- histories of user-level calls ---------- *)
+(* a query, or a run of the feasibility heuristic with whatever primitive trace it performed *)
+Inductive call := CQuery (q : qop) | CHeur (tr : list action).
+
+Definition ctrace (k : kind) (c : call) : list action :=
+  match c with CQuery q => qtrace k q | CHeur tr => tr end.
+
+(* the arc-based class has no fourth cache (its Quad flag is never set), the path-based class has none *)
+Definition kind_okb (k : kind) (f : cid -> bool) : bool :=
+  match k with
+  | KArc => negb (f Quad)
+  | KSeq => true
+  | KPath => negb (f Vars) && negb (f Con) && negb (f Obj) && negb (f Quad)
+  end.
+
+(* a heuristic run keeps the discipline on its own: whatever is built when it starts, its trace passes
+   the flag discipline and leaves nothing dirty *)
+Definition heur_ok (k : kind) (tr : list action) : Prop :=
+  forall ws, clean ws -> kind_okb k (wflag ws) = true ->
+  exists ws', wf_run ws tr = Some ws' /\ clean ws' /\ kind_okb k (wflag ws') = true.
+
+Definition flag_table (v c o q : bool) : cid -> bool :=
+  fun i => match i with Vars => v | Con => c | Obj => o | Quad => q end.
+
+Definition all_flag_tables : list (cid -> bool) :=
+  flat_map (fun v => flat_map (fun c => flat_map (fun o => map (fun q => flag_table v c o q)
+    [false; true]) [false; true]) [false; true]) [false; true].
+
+Definition heur_okb (k : kind) (tr : list action) : bool :=
+  forallb (fun f => match wf_run (mkW f (fun _ => false)) tr with
+                    | Some w => cleanb w && kind_okb k (wflag w)
+                    | None => false
+                    end) (filter (kind_okb k) all_flag_tables).
 
 (* ---------- correspondence cases (recorded from instrumented real objects) ---------- *)
 (* label of a user-level call: a query (and whether it raised) or a run of the heuristic *)
@@ -367,5 +411,9 @@ Definition check_tcase (c : tcase) : list nat :=
       chk 2 (flags_match init (concat (map (fun r : orec => snd r) h))) ++
       chk 3 (wf_trace (ws_of init) all) ++
       chk 4 (disciplined all init) ++
-      chk 5 (match hist_ok (ws_of init) trs with Some _ => true | None => false end)
+      chk 5 (match hist_ok (ws_of init) trs with Some _ => true | None => false end) ++
+      chk 6 (forallb (fun r : orec => match fst r with
+                                      | HHeur => heur_okb k (map fst (snd r))
+                                      | _ => true
+                                      end) h)
   end.
